@@ -77,7 +77,8 @@ pub fn input_data_context_evaluator(input_data: &InputData) -> Result<InputDataC
     .type_ref()
     .as_ref()
     .ok_or_else(|| err_input_data_without_type_reference(input_data.name()))?
-    .clone();
+    .trim()
+    .to_string();
   let name = input_data.variable().feel_name().as_ref().ok_or_else(err_empty_feel_name)?.clone();
   if let Some(feel_type) = type_ref_to_feel_type(&type_ref) {
     if matches!(
